@@ -570,6 +570,33 @@ pub fn judge(p: &Program, stack: bool) -> Verdict {
     }
 }
 
+/// True distance (target - (here + 1)) of every label reference: (line index, delta, field bits).
+pub fn label_deltas(p: &Program) -> Vec<(usize, i64, u32)> {
+    let mut labels: Vec<(&str, usize)> = Vec::new();
+    let mut idx = 0usize;
+    for line in &p.lines {
+        if let Some((name, _)) = &line.label {
+            labels.push((name.as_str(), idx));
+        }
+        if let Body::Stmt(s) = &line.body {
+            idx += s.size().unwrap_or(0);
+        }
+    }
+    let mut out = Vec::new();
+    let mut here = 0usize;
+    for (li, line) in p.lines.iter().enumerate() {
+        if let Body::Stmt(s) = &line.body {
+            if let (Some(bits), Operand::Label(name)) = (s.op.pcrel_bits(), &s.operand) {
+                if let Some((_, t)) = labels.iter().find(|(n, _)| n == name) {
+                    out.push((li, *t as i64 - (here as i64 + 1), bits));
+                }
+            }
+            here += s.size().unwrap_or(0);
+        }
+    }
+    out
+}
+
 /// Convenience: encode a program that is accepted by construction.
 pub fn encode(p: &Program, stack: bool) -> Option<RefImage> {
     match judge(p, stack) {
